@@ -64,6 +64,8 @@ pub mod schema;
 pub mod server;
 pub mod status;
 pub mod testkit;
+#[cfg(feature = "verif-hooks")]
+pub mod verif_hooks;
 
 /// A prelude of imports that should be imported by all other Kanidm modules to
 /// help make imports cleaner.
